@@ -116,6 +116,10 @@ func newRuleguardChecker(info *linter.CheckerInfo, ctx *linter.CheckerContext) (
 	}
 	rulesFlag := info.Params.String("rules")
 	if rulesFlag == "" {
+		// Still reject an invalid failOn value: it's a configuration error.
+		if _, err := newErrorHandler(info.Params.String("failOn")); err != nil {
+			return nil, err
+		}
 		return c, nil
 	}
 	failOn := info.Params.String("failOn")
